@@ -218,7 +218,13 @@ struct MSpan {
     closed: bool,
     stack: usize,
     level: usize,
+    /// spans a handle of which is stored in this span's extensions (dropped, in this order, when
+    /// this span's data is cleared — after the reference to its parent was released)
+    links: Vec<u64>,
 }
+
+/// The extension type that owns the stored handles of op 16.
+struct Links(#[allow(dead_code)] Vec<Span>);
 
 #[derive(Default)]
 struct Model {
@@ -232,11 +238,33 @@ impl Model {
         if !sp.closed && sp.handles == 0 && sp.entered == 0 && sp.children == 0 {
             sp.closed = true;
             out.push(s);
+            let links = std::mem::take(&mut sp.links);
             if let Some(p) = sp.parent {
                 self.spans.get_mut(&p).unwrap().children -= 1;
                 self.maybe_close(p, out);
             }
+            for z in links {
+                self.spans.get_mut(&z).unwrap().handles -= 1;
+                self.maybe_close(z, out);
+            }
         }
+    }
+    /// does `from` (transitively) keep `to` open?  child -> parent, holder -> linked
+    fn keeps_open(&self, from: u64, to: u64) -> bool {
+        let mut todo = vec![from];
+        let mut seen = std::collections::HashSet::new();
+        while let Some(x) = todo.pop() {
+            if x == to {
+                return true;
+            }
+            if !seen.insert(x) {
+                continue;
+            }
+            let m = &self.spans[&x];
+            todo.extend(m.parent);
+            todo.extend(m.links.iter().copied());
+        }
+        false
     }
     fn drop_handle(&mut self, s: u64) -> Vec<u64> {
         let mut out = vec![];
@@ -481,7 +509,7 @@ impl World {
 
     fn register_new(&mut self, serial: u64, span: &Span, stack: usize, parent: Option<u64>, level: usize) {
         let id = span.id().map(|i| i.into_u64()).unwrap_or(0);
-        self.model.spans.insert(serial, MSpan { id, parent, handles: 1, entered: 0, children: 0, closed: false, stack, level });
+        self.model.spans.insert(serial, MSpan { id, parent, handles: 1, entered: 0, children: 0, closed: false, stack, level, links: vec![] });
         if let Some(p) = parent {
             self.model.spans.get_mut(&p).unwrap().children += 1;
         }
@@ -521,7 +549,7 @@ impl World {
         let deep = depth >= 3;
         let c6 = self.w.c06;
         let nraw = RAW.with(|r| r.borrow().len());
-        let w: [u32; 16] = [
+        let w: [u32; 17] = [
             6,                                             // 0 new contextual (macro)
             if self.metas.is_empty() { 0 } else { 4 },     // 1 new root / explicit parent
             if has { 4 } else { 0 },                       // 2 clone
@@ -538,6 +566,7 @@ impl World {
             if has { 1 } else { 0 },                       // 13 re-enter same span (duplicate) scoped
             if has && nraw < 4 { 3 } else { 0 },           // 14 enter through the collector API (owns no handle)
             if nraw > 0 { 4 } else { 0 },                  // 15 exit through the collector API
+            if live.len() >= 2 && !self.w.foreign { 2 } else { 0 }, // 16 move a handle into another span's extensions
         ];
         let op = self.rng.weighted(&w);
         match op {
@@ -881,6 +910,43 @@ impl World {
                     self.errors = kept;
                     let _ = n0;
                 }
+            }
+            16 => {
+                // a handle of span Z is stored in the extensions of span H (a "link"): it is
+                // dropped when H's data is cleared, which may close Z (and Z's ancestors) from
+                // inside H's close
+                let cands: Vec<usize> = live.iter().copied().filter(|&i| self.handles[i].as_ref().unwrap().serial.is_some()).collect();
+                if cands.len() < 2 { return; }
+                let hi = *self.rng.pick(&cands);
+                let zi = *self.rng.pick(&cands);
+                if hi == zi { return; }
+                let hs = self.handles[hi].as_ref().unwrap().serial.unwrap();
+                let zs = self.handles[zi].as_ref().unwrap().serial.unwrap();
+                if self.model.spans[&hs].stack != self.model.spans[&zs].stack || self.model.keeps_open(zs, hs) {
+                    return; // would make a reference cycle (a legitimate leak): not generated
+                }
+                let hid = self.model.spans[&hs].id;
+                let d = self.disp[self.model.spans[&hs].stack].clone();
+                let Some(stack) = d.downcast_ref::<Stack>() else { return };
+                let Some(sref) = stack.span(&Id::from_u64(hid)) else {
+                    self.err(Tag::C05, format!("span serial {hs} has a live handle but the registry no longer finds it"));
+                    return;
+                };
+                let z = self.handles[zi].take().unwrap();
+                self.trace.push(format!("[w{t}] extensions_mut(h{hi} [serial {hs}]).push(h{zi} [serial {zs}])  // handle stored in another span's extensions"));
+                {
+                    let mut ext = sref.extensions_mut();
+                    if let Some(l) = ext.get_mut::<Links>() {
+                        l.0.push(z.span);
+                    } else {
+                        ext.insert(Links(vec![z.span]));
+                    }
+                }
+                drop(sref);
+                self.model.spans.get_mut(&hs).unwrap().links.push(zs);
+                self.stat("handles_stored_in_another_spans_extensions");
+                self.sig("link", Some(zs), depth);
+                self.check(&[], None, None);
             }
             _ => unreachable!(),
         }
